@@ -23,6 +23,27 @@ theorem C01_no_strategy_panic (reqs : List Req) (hv : ∀ r ∈ reqs, r.valid) (
     stepPanics (run reqs) r = false :=
   ((reachable_BInv reqs hv).step hr).2
 
+/-- the property in its literal byte form: in a definition built from any valid history, no byte of
+    the record buffer belongs to two different data of one variant (zero-size data own no byte, so
+    the statement is about data of non-zero size exactly as the property says) -/
+theorem C01_no_shared_byte (reqs : List Req) (hv : ∀ r ∈ reqs, r.valid) (def_ : Definition)
+    (hb : (run reqs).build = some def_) :
+    ∀ v ∈ def_.variants, ∀ a ∈ v, ∀ b ∈ v, ∀ x : Nat,
+      off def_.defs a ≤ x → x < off def_.defs a + sz def_.defs a →
+      off def_.defs b ≤ x → x < off def_.defs b + sz def_.defs b → a = b := by
+  intro v hvm a ha b hbm x h1 h2 h3 h4
+  have hdef : def_ = ⟨(run reqs).defs, (run reqs).variants⟩ := by
+    unfold BState.build at hb
+    split at hb
+    · exact (Option.some.inj hb).symm
+    · simp at hb
+  subst hdef
+  by_cases hne : a = b
+  · exact hne
+  · have := C01_disjoint reqs hv v hvm a ha b hbm hne
+    simp only at h1 h2 h3 h4
+    omega
+
 /-- non-vacuity: a mixed-strategy history meets the hypothesis and produces three non-trivial variants -/
 example : (∀ r ∈ Ex.h1, r.valid) ∧
     (run Ex.h1).variants = [[0, 2, 1], [2, 1, 3, 4], [2, 1, 3, 4, 5]] ∧
